@@ -88,6 +88,8 @@ HARNESS = {
     # name: (source, compiler, flags, libs, config kwargs)
     "h_exact": dict(src="h_exact.cpp", cxx="clang++", flags=["-O1", "-g"] + SAN, libs=["-lrapidcheck", "-ltbb", "-lboost_timer"]),
     "h_approx": dict(src="h_approx.cpp", cxx="clang++", flags=["-O1", "-g"] + SAN, libs=["-lrapidcheck", "-ltbb", "-lboost_timer"]),
+    "fz_mcb": dict(src="fz_mcb.cpp", cxx="clang++", flags=["-O1", "-g", "-fsanitize=fuzzer,address,undefined", "-fno-sanitize-recover=undefined"],
+                   libs=["-lrapidcheck", "-ltbb", "-lboost_timer"]),
     "fz_dimacs": dict(src="fz_dimacs.cpp", cxx="clang++", flags=["-O1", "-g", "-fsanitize=fuzzer,address,undefined", "-fno-sanitize-recover=undefined"], libs=["-ltbb"]),
     "h_dimacs": dict(src="h_dimacs.cpp", cxx="clang++", flags=["-O1", "-g"] + SAN, libs=["-lrapidcheck", "-ltbb"]),
     "h_alg": dict(src="h_alg.cpp", cxx="clang++", flags=["-O1", "-g"] + SAN, libs=["-lrapidcheck"]),
@@ -177,7 +179,7 @@ def prop(pid, **kw):
 
 prop("C01", harness="h_exact",
      quick=dict(shards=16, cases=6000, env={"VERIF_MAXN": "14"}),
-     thorough=dict(shards=16, cases=15000, env={"VERIF_MAXN": "40"}),
+     thorough=dict(shards=16, cases=60000, env={"VERIF_MAXN": "40"}),
      rule="Generated simple graphs (12 shape families incl. empty/forest/multi-component, disjoint unions, pendant trees, "
           "vertex+edge-order permutations) x exact weight palettes x {double,int} x {signed,fvs_trees,iso_trees}; oracle: "
           "count==m-n+c (union-find), every cycle one simple cycle of the caller's graph (descriptor identity), GF(2) rank == count. "
@@ -185,8 +187,8 @@ prop("C01", harness="h_exact",
      assumptions=["weights are exactly summable (dyadic/integer), graphs simple: the property's stated domain",
                   "output iterator is a back_inserter into std::list<std::list<edge>> as in every caller in the repository"])
 prop("C02", harness="h_exact",
-     quick=dict(shards=16, cases=6000, env={"VERIF_MAXN": "12"}),
-     thorough=dict(shards=16, cases=12000, env={"VERIF_MAXN": "32"}),
+     quick=dict(shards=16, cases=6000, env={"VERIF_MAXN": "12"}, fuzz=dict(harness="fz_mcb", jobs=4, runs=8000, max_len=64)),
+     thorough=dict(shards=16, cases=60000, env={"VERIF_MAXN": "32"}, fuzz=dict(harness="fz_mcb", jobs=16, time=240, max_len=64)),
      rule="Same generator as C01; oracle: returned value == exact sum of emitted cycle weights, == optimum from an independent "
           "reference (brute force over all simple cycles + greedy GF(2) independence for n<=8,m<=22; textbook de Pina with plain "
           "Dijkstra on the explicit signed graph otherwise), sorted cycle-weight vector == optimum's. Non-trivial = dimension>=2 "
@@ -375,6 +377,11 @@ def run_shard(binp, pid, seed, cases, env, excludes, workdir, idx, timeout, max_
     e = dict(ASAN_ENV)
     e.update(env or {})
     e["RC_PARAMS"] = "seed=%d max_success=%d max_size=%d" % (seed, cases, max_size)
+    if launcher:   # mpiexec: private session directory per launch (concurrent launches race on /tmp/ompi.<host>.<uid>)
+        td = os.path.join(workdir, "ompi-%d" % idx)
+        os.makedirs(td, exist_ok=True)
+        e["TMPDIR"] = td
+        e["OMPI_MCA_orte_tmpdir_base"] = td
     rc, out, to = run_proc(cmd, e, timeout)
     st = None
     if os.path.exists(statp):
@@ -401,6 +408,11 @@ def replay_once(binp, pid, path, env, timeout=120, launcher=None, workdir=None):
         cmd = launcher + cmd
     e = dict(ASAN_ENV)
     e.update(env or {})
+    if launcher:
+        td = os.path.join(workdir, "ompi-replay-%d" % os.getpid())
+        os.makedirs(td, exist_ok=True)
+        e["TMPDIR"] = td
+        e["OMPI_MCA_orte_tmpdir_base"] = td
     rc, out, to = run_proc(cmd, e, timeout)
     st = None
     if os.path.exists(statp):
@@ -949,7 +961,7 @@ def run_c11(pid, tier):
     sd = seed_value()
     D, env, wd = demo_env()
     findings = open_findings(pid)
-    n = 40 if tier == "quick" else 500
+    n = 120 if tier == "quick" else 1200
     violations = []
     notes = []
     # committed replays first
